@@ -20,6 +20,7 @@ pub mod c14;
 pub mod c15;
 pub mod c18;
 pub mod c19;
+pub mod c20;
 pub mod decide;
 pub mod faultsim;
 pub mod c16;
@@ -40,6 +41,7 @@ pub fn run(ctx: &Ctx) -> Option<&'static str> {
         "C12" => Some(c12::run(ctx)),
         "C05" => Some(c05::run(ctx)),
         "C06" => Some(c06::run(ctx)),
+        "C20" => Some(c20::run(ctx)),
         "C19" => Some(c19::run(ctx)),
         "C18" => Some(c18::run(ctx)),
         "C17" => Some(c17::run(ctx)),
